@@ -1155,6 +1155,8 @@ def explore(ctx, tpl, stats):
             if a == "sat" and m:
                 ok_work.append(model_to_vals(m, tpl.vars, "int"))
         work = ok_work
+        if not work:
+            raise RuntimeError(f"template {tpl.name}: no valuation satisfies the stated assumption (vacuous template): {tpl.assume!r}")
     work.reverse()
     seen = {}
     tried = set()
